@@ -41,6 +41,7 @@ import Proofs.C02RoundTrip
 import Proofs.C02Project
 import Proofs.C02Q
 import Proofs.C02Regions
+import Proofs.C02Global
 
 namespace TM
 open C02
@@ -303,6 +304,35 @@ theorem C02_step_regions (cfg : NCfg) (hwf : cfg.states.WF = true) (sub : NSub) 
       ((grun cfg g seg).enteredThenExited = true → g.enteredThenExited = true ∨ nonLocalRun cfg g seg = true) := by
   obtain ⟨seg, hl, hc⟩ := frame_apiTrigger2 cfg sub sc (RInv2 cfg) hR hC (rinv2_closed sub sc cfg hwf hR hC) qmax ev s s' h
   exact ⟨seg, hl, hc g hI⟩
+
+/-- **one trigger call on a machine whose transitions are all declared on the machine — the statement up to the one
+remaining open finding.**  Unqueued machine, ghost state between events: "entered and afterwards exited within one
+event" can only rise if some transition that executes violates the REGION CONDITION at that moment (`nonRegionRun`,
+`regionOK`): an ancestor of its source (or the machine) has two or more active children and its destination lies outside
+the source's branch — i.e. the transition targets (an ancestor in) another region.  That its source is active, was not
+exited or entered during the event, and that nothing below it was entered during the event is PROVED for every
+transition the repaired dispatch executes (`nonLocal_imp_nonRegion`), it is no longer an exclusion. -/
+theorem C02_step_global (cfg : NCfg) (hwf : cfg.states.WF = true) (sub : NSub) (sc : Script)
+    (hR : NoRaise sc) (hC : NoCmds sc) (hq : cfg.queued = false) (hno : cfg.states.noEvents = true)
+    (hkeys : (cfg.events.map (·.1)).Nodup)
+    (qmax ev : Nat) (s s' : NSt) (g : G) (hI : GI2 cfg g s.conf) (hidle : s.queue = [])
+    (hent : g.entered = []) (hexi : g.exited = [])
+    (h : (napiTrigger sub sc cfg qmax ev s).state? = some s') :
+    ∃ seg, s'.glog = s.glog ++ seg ∧ GI2 cfg (grun cfg g seg) s'.conf ∧ (grun cfg g seg).core = g.core ∧
+      ((grun cfg g seg).enteredThenExited = true → g.enteredThenExited = true ∨ nonRegionRun cfg g seg = true) := by
+  obtain ⟨seg, hl, hi, hcore, hete⟩ := C02_step_regions cfg hwf sub sc hR hC qmax ev s s' g hI h
+  obtain ⟨seg', hl', himp⟩ := nonLocal_imp_nonRegion cfg hwf sub sc hR hC hq hno hkeys qmax ev s s' g hI hidle hent hexi h
+  have hss : seg' = seg := List.append_cancel_left (hl'.symm.trans hl)
+  subst hss
+  refine ⟨seg', hl, hi, hcore, fun hx => ?_⟩
+  rcases hete hx with h1 | h1
+  · exact Or.inl h1
+  · exact Or.inr (himp h1)
+
+/-- the witness `c02Cross` violates the region condition (and only then can the flag rise); the two-region machine
+`c02Regions` below does not -/
+example : ((NSt.init c02Cross).bind fun s0 => ((napiTrigger c02Sub c02Script c02Cross 4 0 s0).state?).map fun s =>
+      nonRegionRun c02Cross (G.init c02Cross s0.conf) s.glog) = some true := by decide
 
 /-- **every history, sharp form**: the ghost is clean after any history in which every executing transition was
 local at its moment -/
